@@ -38,44 +38,32 @@ import (
 	"strings"
 
 	"github.com/XiaoMi/Gaea/mysql"
+	"github.com/XiaoMi/Gaea/parser"
 	"github.com/XiaoMi/Gaea/util"
 )
 
 var p = &mysql.Field{Name: []byte("?")}
 var c = &mysql.Field{}
 
+// CalcParams finds the parameter markers of a prepared statement. The positions come from the SQL lexer, so a '?' inside
+// a string literal, a quoted identifier or a comment is not counted
 func CalcParams(sql string) (count int, offsets []int, sqlItems []string, err error) {
-	quoteChar := ""
-	offsets = make([]int, 0)
 	sqlItems = make([]string, 0)
-	subBeginIndex := 0
+	offsets, err = parser.ParamMarkerOffsets(sql)
+	if err != nil {
+		return 0, nil, nil, err
+	}
+	count = len(offsets)
 
-	for i, elem := range []byte(sql) {
-		if elem == '\\' {
-			continue
-		} else if elem == '"' || elem == '\'' {
-			if quoteChar == "" {
-				quoteChar = string(elem)
-			} else if quoteChar == string(elem) {
-				quoteChar = ""
-			}
-		} else if quoteChar == "" && elem == '?' {
-			count++
-			offsets = append(offsets, i)
-			sqlItems = append(sqlItems, sql[subBeginIndex:i], "?")
-			subBeginIndex = i + 1
-		}
+	subBeginIndex := 0
+	for _, offset := range offsets {
+		sqlItems = append(sqlItems, sql[subBeginIndex:offset], "?")
+		subBeginIndex = offset + 1
 	}
 
 	// sub string behind the last "?", eg: select * from t where id = ? limit 1
 	if subBeginIndex != len(sql) {
 		sqlItems = append(sqlItems, sql[subBeginIndex:])
-	}
-
-	// quote char not match
-	if quoteChar != "" {
-		err = fmt.Errorf("fatal situation")
-		return
 	}
 
 	return
